@@ -97,6 +97,8 @@ def run_profile(c):
             "cl": h.monthly_cl, "hl": h.monthly_hl, "pcl": h.monthly_peak_cl, "phl": h.monthly_peak_hl,
             "dcl": [float(x) for x in h.monthly_peak_cl_duration], "dhl": [float(x) for x in h.monthly_peak_hl_duration],
             "daycl": h.monthly_peak_cl_day, "dayhl": h.monthly_peak_hl_day,
+            "acl": [float(x) for x in h.monthly_avg_cl], "ahl": [float(x) for x in h.monthly_avg_hl], "days_in_month": [int(x) for x in h.days_in_month],
+            "raw": [float(x) for x in loads],
             "warnings": len(ws), "rej_sum": sum(rej), "ext_sum": sum(ext),
             "hourly_rej_month": [sum(rej[a:b]) for a, b in month_slices()],
             "hourly_ext_month": [sum(ext[a:b]) for a, b in month_slices()],
